@@ -33,39 +33,67 @@ fn prefilled() -> InterruptDescriptorTable {
     t
 }
 
-pub fn install_case(r: &mut Rep, lo: u8, hi: u8, pre: bool, form: u8) {
-    let mut t = if pre { prefilled() } else { InterruptDescriptorTable::new() };
-    let before = table_bytes(&t);
+/// one macro expansion per form: calling this twice re-installs the very same stubs
+fn do_install(t: &mut InterruptDescriptorTable, lo: u8, hi: u8, form: u8) {
     match form {
-        0 => set_general_handler!(&mut t, gh_record, lo..=hi),
+        0 => set_general_handler!(t, gh_record, lo..=hi),
         1 => {
             // exclusive form lo..hi+1 is only expressible for hi < 255
             let h1 = hi + 1;
-            set_general_handler!(&mut t, gh_record, lo..h1)
+            set_general_handler!(t, gh_record, lo..h1)
         }
         // open-ended and tuple forms (callers pass them only where they denote exactly lo..=hi)
-        2 => set_general_handler!(&mut t, gh_record, lo..),
-        3 => set_general_handler!(&mut t, gh_record, ..=hi),
+        2 => set_general_handler!(t, gh_record, lo..),
+        3 => set_general_handler!(t, gh_record, ..=hi),
         4 => {
             let h1 = hi + 1;
-            set_general_handler!(&mut t, gh_record, ..h1)
+            set_general_handler!(t, gh_record, ..h1)
         }
-        5 => set_general_handler!(&mut t, gh_record, ..),
+        5 => set_general_handler!(t, gh_record, ..),
         6 => {
             let l1 = lo - 1;
-            set_general_handler!(&mut t, gh_record, (core::ops::Bound::Excluded(l1), core::ops::Bound::Included(hi)))
+            set_general_handler!(t, gh_record, (core::ops::Bound::Excluded(l1), core::ops::Bound::Included(hi)))
         }
-        7 => set_general_handler!(&mut t, gh_record, (core::ops::Bound::Included(lo), core::ops::Bound::<u8>::Unbounded)),
+        7 => set_general_handler!(t, gh_record, (core::ops::Bound::Included(lo), core::ops::Bound::<u8>::Unbounded)),
         8 => {
             let h1 = hi + 1;
-            set_general_handler!(&mut t, gh_record, (core::ops::Bound::<u8>::Unbounded, core::ops::Bound::Excluded(h1)))
+            set_general_handler!(t, gh_record, (core::ops::Bound::<u8>::Unbounded, core::ops::Bound::Excluded(h1)))
         }
         _ => unreachable!(),
     }
+}
+
+pub fn install_case(r: &mut Rep, lo: u8, hi: u8, pre: bool, form: u8) {
+    install_case_mode(r, lo, hi, pre as u8, form)
+}
+/// start table: 0 fresh, 1 prefilled with another handler and non-default options, 2 the same installation done before and every
+/// gate's options changed since (not present, trap gate, ring 3, IST 5, another code selector): a re-installation must still
+/// produce the default present gates
+pub fn install_case_mode(r: &mut Rep, lo: u8, hi: u8, start: u8, form: u8) {
+    let mut t = if start == 1 { prefilled() } else { InterruptDescriptorTable::new() };
+    if start == 2 {
+        do_install(&mut t, 0, 255, 5);
+        do_install(&mut t, lo, hi, form);
+        let p = &mut t as *mut InterruptDescriptorTable as *mut u8;
+        for v in 0..256usize {
+            unsafe {
+                let g = p.add(16 * v);
+                if *g.add(5) & 0x80 != 0 {
+                    *g.add(2) = 0x34;
+                    *g.add(3) = 0x12;
+                    *g.add(4) = 5;
+                    *g.add(5) = 0x6f; // not present, DPL 3, trap gate
+                }
+            }
+        }
+    }
+    let pre = start == 1;
+    let before = table_bytes(&t);
+    do_install(&mut t, lo, hi, form);
     let after = table_bytes(&t);
     let cs = native_cs();
     r.ev(lo < 32);
-    let case = format!("install {} {} {} {}", lo, hi, pre, form);
+    let case = format!("install {} {} {} {}", lo, hi, if start == 2 { "reinstall".to_string() } else { pre.to_string() }, form);
     let mut offsets: Vec<u64> = Vec::new();
     for v in 0..=255u8 {
         let b: &[u8; 16] = before[16 * v as usize..16 * v as usize + 16].try_into().unwrap();
@@ -443,7 +471,7 @@ pub fn run(a: &Args) {
     if let Some(c) = &a.replay {
         let t: Vec<&str> = c.split_whitespace().collect();
         match t[0] {
-            "install" => install_case(&mut r, t[1].parse().unwrap(), t[2].parse().unwrap(), t[3] == "true", t[4].parse().unwrap()),
+            "install" => install_case_mode(&mut r, t[1].parse().unwrap(), t[2].parse().unwrap(), match t[3] { "true" => 1, "reinstall" => 2, _ => 0 }, t[4].parse().unwrap()),
             "entry" => entry_vector(&mut r, t[1].parse().unwrap()),
             "iretq" => crate::c13iret::run(&mut r, a),
             "entryframe" => { crate::simcpu::init(); crate::c13iret::entry_frames(&mut r, &Args { prop: "C13".into(), tier: "thorough".into(), shard: 0, nshards: 1, replay: None, extra: vec![] }) }
@@ -475,6 +503,7 @@ pub fn run(a: &Args) {
             let boundary = |x: u8| matches!(x, 0 | 7 | 8 | 9 | 14 | 15 | 16 | 18 | 21 | 22 | 27 | 28 | 30 | 31 | 32 | 33 | 254 | 255);
             if boundary(lo) || boundary(hi) || a.thorough() {
                 guarded(&mut r, "C13|install|unexpected-panic", || format!("install {} {} true 0", lo, hi), |r| install_case(r, lo, hi, true, 0));
+                guarded(&mut r, "C13|install|unexpected-panic", || format!("install {} {} reinstall 0", lo, hi), |r| install_case_mode(r, lo, hi, 2, 0));
                 if hi < 255 {
                     guarded(&mut r, "C13|install|unexpected-panic", || format!("install {} {} false 1", lo, hi), |r| install_case(r, lo, hi, false, 1));
                 }
